@@ -71,6 +71,15 @@ Theorem C20_create_total : forall (creds : list (nat * cred)) (S0 : list cstmt),
   forall Orc, create creds S0 Orc <> Panic.
 Proof. exact create_no_panic. Qed.
 
+(** ... and when creation succeeds, every range statement on a signature credential names the claim and the
+    signature statement of the commitment statement it refers to (the check repaired by aaf6d94) *)
+Theorem C20_create_ok_ranges_agree : forall (creds : list (nat * cred)) (S0 : list cstmt) Orc,
+  create creds S0 Orc = Ok tt ->
+  forall s, In s (cpreds S0) -> c_kind s = KRange -> forall l, assoc (c_sig s) creds = Some (CredSig l) ->
+  exists cs, find (fun p => Nat.eqb (c_key p) (c_ref s)) (cpreds S0) = Some cs /\
+             c_claim s = c_claim cs /\ c_sig s = c_ref cs.
+Proof. exact create_ok_ranges_agree. Qed.
+
 Example C20_create_skeleton_accepts_something :
   let creds := [(0%nat, CredSig [false; false; true])] in
   let S0 := [Build_cstmt 0 KSig 0 0 0 0 [] [7%nat] [5%nat; 7%nat; 9%nat] 3;
@@ -97,6 +106,7 @@ Proof. exact to_unblinded_np. Qed.
 
 Print Assumptions C20_blind_sign_total.
 Print Assumptions C20_create_total.
+Print Assumptions C20_create_ok_ranges_agree.
 Print Assumptions C20_from_text_total.
 Print Assumptions C20_verify_total.
 Print Assumptions C20_structural_reject_is_final.
